@@ -1,5 +1,7 @@
 import Thanos.Model.Hashring
 import Thanos.Lemmas.Hashring
+import Thanos.Lemmas.HashringBalance
+import Thanos.Lemmas.HashringWalk
 import Thanos.Model.RingMetrics
 import Thanos.Generated.Facts
 /-
@@ -218,6 +220,154 @@ theorem f19_build_repaired : build true f19Eps 4 = .stuck := by
   have hl : ¬ f19Eps.length < 4 := by decide
   simp only [build, hl, if_false, f19_mkRing, hz]
   decide
+
+/-! ### exactly when is the error reported?
+
+  `canBalance sizes rf` is the arithmetic condition on the zone sizes alone (Model/Hashring.lean):
+  with ≥ 2 zones `rf ≤ Σ min(size, m+1)`, `m` the smallest zone; with one zone `rf ≤ size`. -/
+
+/-- **C19 / C18, exactness.**  For every ring whose endpoints each live in one zone, every start
+    section and every replication factor: the repaired loop reports "stuck" iff the zone sizes
+    cannot take `rf` balanced replicas — independently of all hash values — and answers `rf`
+    replicas otherwise. -/
+theorem C19_stuck_iff (ring : List Sec) (zones : List Nat) (rf : Nat) (start : List Sec)
+    (hne : ring ≠ []) (hstart : ∃ pre, ring = pre ++ start) (hcons : AzConsistent ring)
+    (hn : zones.Nodup) (hcover : ∀ s ∈ ring, s.az ∈ zones) (hb : rf < 2 ^ 63 - 1) :
+    (replicasFor true ring zones rf start = .stuck ↔ canBalance (zones.map (zsize ring)) rf = false) ∧
+    ((∃ reps, replicasFor true ring zones rf start = .ok reps) ↔ canBalance (zones.map (zsize ring)) rf = true) := by
+  have hsub : ∀ s ∈ start, s ∈ ring := by
+    obtain ⟨pre, hp⟩ := hstart
+    intro s hs; rw [hp]; simp [hs]
+  have hzne : zones ≠ [] := by
+    intro h
+    cases ring with
+    | nil => exact hne rfl
+    | cons a r => have := hcover a (by simp); simp [h] at this
+  have key : (replicasFor true ring zones rf start = .stuck ∧ ¬ rf ≤ capacity ring zones) ∨
+      ((∃ reps, replicasFor true ring zones rf start = .ok reps) ∧ rf ≤ capacity ring zones) := by
+    cases hr : replicasFor true ring zones rf start with
+    | ok reps =>
+      right
+      obtain ⟨final, hreach, hlen, _⟩ := loop_ok_reach true ring ring.length zones rf _ start 0 [] reps hsub
+        (reach_nil ring zones rf) hr
+      have := length_le_capacity hreach hb hn hcover
+      exact ⟨⟨reps, rfl⟩, by omega⟩
+    | stuck =>
+      left
+      obtain ⟨final, hreach, hlen, hst⟩ := loop_stuck_reach ring zones rf _ start 0 [] hsub
+        (reach_nil ring zones rf) (window_zero hstart) (by omega) hr
+      have := stuck_full hreach hb hn hcover hcons hzne hst
+      exact ⟨rfl, by omega⟩
+    | fuelOut => exact absurd hr (replicasFor_repaired_ne_fuelOut _ _ _ _)
+    | oob => exact absurd hr (loop_ne_oob true ring _ zones rf hne _ _ _ _)
+  have hcb := canBalance_iff ring zones rf
+  rcases key with ⟨h1, h2⟩ | ⟨⟨reps, h1⟩, h2⟩
+  · have hf : canBalance (zones.map (zsize ring)) rf = false := by
+      cases h : canBalance (zones.map (zsize ring)) rf with
+      | false => rfl
+      | true => exact absurd (hcb.mp h) h2
+    refine ⟨⟨fun _ => hf, fun _ => h1⟩, ⟨?_, ?_⟩⟩
+    · rintro ⟨reps, hr⟩; rw [h1] at hr; cases hr
+    · intro h; rw [hf] at h; cases h
+  · have ht : canBalance (zones.map (zsize ring)) rf = true := hcb.mpr h2
+    refine ⟨⟨?_, ?_⟩, ⟨fun _ => ht, fun _ => ⟨reps, h1⟩⟩⟩
+    · intro h; rw [h1] at h; cases h
+    · intro h; rw [ht] at h; cases h
+
+/-- **C19, partial theorem for the loop as it was.**  On every layout that can be balanced the
+    unrepaired loop terminates too (with the same answer): F19 is confined to the layouts that
+    cannot. -/
+theorem C19_unrepaired_partial (ring : List Sec) (zones : List Nat) (rf : Nat) (start : List Sec)
+    (hne : ring ≠ []) (hstart : ∃ pre, ring = pre ++ start) (hcons : AzConsistent ring)
+    (hn : zones.Nodup) (hcover : ∀ s ∈ ring, s.az ∈ zones) (hb : rf < 2 ^ 63 - 1)
+    (hcan : canBalance (zones.map (zsize ring)) rf = true) :
+    ∃ fuel reps, loop false ring ring.length zones rf fuel start 0 [] = .ok reps := by
+  obtain ⟨reps, hr⟩ := (C19_stuck_iff ring zones rf start hne hstart hcons hn hcover hb).2.mpr hcan
+  exact ⟨_, reps, loop_ok_unrepaired ring ring.length zones rf _ start 0 [] reps hr⟩
+
+/-- the zone sizes read off the configuration: endpoints per availability zone -/
+def zoneSizesOf (eps : List Ep) : List Nat :=
+  (zonesOf eps).map fun z => (eps.filter (·.az == z)).length
+
+theorem table_of_canBalance (ring : List Sec) (zones : List Nat) (rf : Nat) (hne : ring ≠ [])
+    (hcons : AzConsistent ring) (hn : zones.Nodup) (hcover : ∀ s ∈ ring, s.az ∈ zones) (hb : rf < 2 ^ 63 - 1) :
+    ∀ (suffix : List Sec), (∃ pre, ring = pre ++ suffix) →
+      (canBalance (zones.map (zsize ring)) rf = true → ∃ t, table true ring zones rf suffix = .ring t) ∧
+      (canBalance (zones.map (zsize ring)) rf = false → suffix ≠ [] → table true ring zones rf suffix = .stuck) := by
+  intro suffix
+  induction suffix with
+  | nil => intro _; exact ⟨fun _ => ⟨[], rfl⟩, fun _ h => absurd rfl h⟩
+  | cons s rest ih =>
+    intro hpre
+    obtain ⟨pre, hp⟩ := hpre
+    have hiff := C19_stuck_iff ring zones rf (s :: rest) hne ⟨pre, hp⟩ hcons hn hcover hb
+    have ih' := ih ⟨pre ++ [s], by simp [hp]⟩
+    constructor
+    · intro hc
+      obtain ⟨reps, hr⟩ := hiff.2.mpr hc
+      obtain ⟨t, ht⟩ := ih'.1 hc
+      exact ⟨(s, reps) :: t, by simp [table, hr, ht]⟩
+    · intro hc _
+      have hr := hiff.1.mpr hc
+      simp [table, hr]
+
+/-- **C19 / C18 for the whole construction.**  When every endpoint has at least one section
+    (production: 1000), `newKetamaHashring` reports the zone error iff `rf ≤ #endpoints` and the
+    endpoints-per-zone counts of the configuration cannot take `rf` balanced replicas; it builds a
+    ring iff they can.  Hash values, section counts and the order of the endpoints play no role. -/
+theorem C19_build_stuck_iff (eps : List Ep) (rf : Nat) (hh : ∀ e ∈ eps, e.hashes ≠ []) (hb : rf < 2 ^ 63 - 1) :
+    (build true eps rf = .stuck ↔ rf ≤ eps.length ∧ canBalance (zoneSizesOf eps) rf = false) ∧
+    ((∃ secs, build true eps rf = .ring secs) ↔ rf ≤ eps.length ∧ canBalance (zoneSizesOf eps) rf = true) := by
+  have hsizes : (zonesOf eps).map (zsize (mkRing eps)) = zoneSizesOf eps := by
+    unfold zoneSizesOf
+    apply List.map_congr_left
+    intro z _
+    exact zsize_mkRing eps z hh
+  unfold build
+  by_cases hlt : eps.length < rf
+  · simp only [hlt, if_true]
+    refine ⟨⟨fun h => ?_, fun h => ?_⟩, ⟨fun h => ?_, fun h => ?_⟩⟩
+    · cases h
+    · omega
+    · obtain ⟨_, h⟩ := h; cases h
+    · omega
+  · simp only [hlt, if_false]
+    have hle : rf ≤ eps.length := by omega
+    by_cases hne : mkRing eps = []
+    · -- no endpoints at all: an empty ring, rf = 0
+      have heps : eps = [] := by
+        cases eps with
+        | nil => rfl
+        | cons e es =>
+          exfalso
+          obtain ⟨h, hm⟩ := List.exists_mem_of_ne_nil _ (hh e (by simp))
+          have : (⟨h, 0, e.az⟩ : Sec) ∈ mkRing (e :: es) := mem_mkRing.mpr ⟨e, by simp, rfl, hm⟩
+          rw [hne] at this; simp at this
+      subst heps
+      have : rf = 0 := by simpa using hle
+      subst this
+      simp [mkRing, sectionsFrom, table, zoneSizesOf, zonesOf, dedup, canBalance]
+    · have hall := table_of_canBalance (mkRing eps) (zonesOf eps) rf hne (azConsistent_mkRing eps)
+        (nodup_dedup _) (mkRing_cover eps) hb (mkRing eps) ⟨[], by simp⟩
+      rw [hsizes] at hall
+      cases hc : canBalance (zoneSizesOf eps) rf with
+      | true =>
+        obtain ⟨t, ht⟩ := hall.1 hc
+        refine ⟨⟨fun h => ?_, fun h => ?_⟩, ⟨fun _ => ⟨hle, rfl⟩, fun _ => ⟨t, ht⟩⟩⟩
+        · rw [ht] at h; cases h
+        · obtain ⟨_, h⟩ := h; cases h
+      | false =>
+        have hst := hall.2 hc hne
+        refine ⟨⟨fun _ => ⟨hle, rfl⟩, fun _ => hst⟩, ⟨fun h => ?_, fun h => ?_⟩⟩
+        · obtain ⟨secs, h⟩ := h; rw [hst] at h; cases h
+        · obtain ⟨_, h⟩ := h; cases h
+
+-- the F19 layout: zone sizes 1 and 3, rf 4 exceeds the capacity 1 + 2; rf 3 fits
+example : canBalance [1, 3] 4 = false := by decide
+example : canBalance [1, 3] 3 = true := by decide
+example : canBalance [2, 4] 4 = true := by decide
+example : canBalance [1, 2, 3] 5 = true ∧ canBalance [1, 2, 3] 6 = false := by decide
+example : (f19Ring.map (·.az)) = [0, 1, 1, 1] ∧ [0, 1].map (zsize f19Ring) = [1, 3] := by decide
 
 /-! ### loading a configuration: metrics registration (known findings)
 
